@@ -288,6 +288,7 @@ def run_voronoi(rep, tier, layout, drop_at=None, L=None, scale="free", free_site
         return coords, box, keep, record["vor"], regions, indices
 
     cache = {}
+    nval = [0]
     o4_timeout = 15000 if tier == "quick" else 120000
 
     def decide(ctx, label, negated, W, key, timeout_ms, extra=()):
@@ -320,6 +321,12 @@ def run_voronoi(rep, tier, layout, drop_at=None, L=None, scale="free", free_site
             val = concretiser(m)
             return {"kind": "voronoi", "layout": layout, "free_site": free_site, "rotation": rotation, "coordinates": [[val(x), val(y)] for x, y in coords],
                     "box": [val(box.xl), val(box.xh), val(box.yl), val(box.yh)]}
+        # cross-validation of the Qhull contract: real scipy on a model of this path must return the class's tables
+        if nval[0] < 3:
+            r0, m0 = ctx.model()
+            if r0 == z3.sat:
+                nval[0] += 1
+                rep.validation(dict(W(m0), kind="voronoi-contract", keep=keep))
         # culling and indices
         rep.obligations += 1
         if list(indices) == keep and len(regions) == len(keep):
@@ -401,6 +408,37 @@ def clip_cells(points, boundary_polygon):
         area = abs(sum(poly[j][0] * poly[(j + 1) % len(poly)][1] - poly[(j + 1) % len(poly)][0] * poly[j][1] for j in range(len(poly)))) / 2 if poly else F(0)
         out.append(area)
     return out
+
+
+def validate(spec):
+    """The Qhull contract against Qhull: for the concrete coordinates of a path model, scipy.spatial.Voronoi must return the
+    ridges (with their finite / infinite status) and vertex-sensor incidences of the class, and vertices equidistant from
+    their sensors."""
+    from scipy.spatial import Voronoi
+    coords = np.array(spec["coordinates"], dtype=float)
+    pts = coords[spec["keep"]]
+    topo = topology(LAYOUTS[spec["layout"]])
+    try:
+        vor = Voronoi(pts)
+    except Exception as e:   # noqa
+        return {"ok": False, "detail": f"Qhull raised {type(e).__name__} on a model of the class: {pts.tolist()}"}
+
+    def shape(rp, rv):
+        return sorted((tuple(sorted(map(int, p))), sum(1 for v in vs if v >= 0)) for p, vs in zip(rp, rv))
+    if shape(vor.ridge_points.tolist(), vor.ridge_vertices) != shape(topo["ridge_points"], topo["ridge_vertices"]):
+        return {"ok": False, "detail": f"Qhull's ridges for {pts.tolist()} differ from the class's: {shape(vor.ridge_points.tolist(), vor.ridge_vertices)}"}
+    sites = {}
+    for (p1, p2), vs in zip(vor.ridge_points.tolist(), vor.ridge_vertices):
+        for v in vs:
+            if v >= 0:
+                sites.setdefault(v, set()).update((p1, p2))
+    if sorted(sorted(x) for x in sites.values()) != sorted(topo["sites"].values()):
+        return {"ok": False, "detail": "vertex-sensor incidences differ from the class's"}
+    for v, ss in sites.items():
+        d = [float(np.hypot(*(vor.vertices[v] - pts[k]))) for k in ss]
+        if max(d) - min(d) > 1e-6 * max(1.0, max(d)):
+            return {"ok": False, "detail": f"vertex {v} not equidistant from its sensors: {d}"}
+    return {"ok": True}
 
 
 def replay(spec):
